@@ -221,5 +221,35 @@ def run(ck):
         if r != "true":
             ck.violation("tracer pair chain built from the calculator's classes/maketracerpreene does not fibre over the bare vacancy network "
                          "(tracer_check false): identities Lsv=-L0vv, L1vv=0 not guaranteed", m, key="c06-structure")
+    # (d) several calculators in one process on ONE crystal object with different hand-selected sub-networks that have the same
+    # number of jump classes (the API allows an edited jump network): each must use ITS network - bare coefficient equal to the
+    # exact unit-cell diffusivity of its own network, and the tracer identities
+    npair = 0
+    for nm in (["square", "tria"] if ck.quick else ["square", "tria", "rect", "sc", "fcc"]):
+        crys, chem = gen.named(nm)
+        sh = gen.shells(crys, chem)
+        if len(sh) < 3: continue
+        sl = crys.sitelist(chem)
+        jn_all = crys.jumpnetwork(chem, sh[2] + 1e-4)
+        if len(jn_all) < 3: continue
+        preT0_all = np.array([rng.uniform(.5, 2) for _ in jn_all]); eneT0_all = np.array([rng.uniform(.6, 1.4) for _ in jn_all])
+        for sel in ([0, 1], [0, 2], [0, 1]):
+            jn = [jn_all[k] for k in sel]
+            d = vm.make(crys, chem, sl, jn, 1)
+            th = dict(preV=np.ones(len(sl)), eneV=np.zeros(len(sl)), preT0=preT0_all[sel], eneT0=eneT0_all[sel])
+            th.update(d.maketracerpreene(**th))
+            L0vv, Lss, Lsv, L1vv = [np.array(x) for x in d.Lij(*d.preene2betafree(1.0, **th))]
+            rates = [[pT * np.exp(-eT) for _ in jl] for jl, pT, eT in zip(jn, th["preT0"], th["eneT0"])]
+            Dex = gen.exact_unitcell_D(d.N, jn, np.ones(d.N) / d.N, rates, crys.dim)
+            scale = np.abs(Dex).max()
+            e0 = np.abs(L0vv - Dex).max() / scale; e1 = np.abs(Lsv + L0vv).max() / scale; e2 = np.abs(L1vv).max() / scale
+            npair += 1
+            ck.case(key=("subnet", nm, tuple(sel), npair), nontrivial=True, kind="same-crystal-other-network")
+            if e0 > 1e-8 or e1 > 1e-4 or e2 > 1e-4:
+                ck.violation("calculator #%d on the same crystal object (jump classes %s of the 3-shell network): L0vv differs from the exact bare "
+                             "diffusivity of ITS network by %.3g, Lsv+L0vv %.3g, L1vv %.3g (relative)" % (npair, sel, e0, e1, e2),
+                             {"crystal": nm, "classes": sel, "preT0": th["preT0"].tolist(), "eneT0": th["eneT0"].tolist(),
+                              "L0vv": L0vv.tolist(), "exact_bare": Dex.tolist(), "Lsv": Lsv.tolist(), "L1vv": L1vv.tolist()}, key="c06-other-network-same-crystal")
+    ck.extra["same_crystal_other_network_cases"] = npair
     ck.extra["traces_validated_against_impl"] = len(codes) + len(res)
     ck.extra["realGF_cases"] = n
